@@ -661,7 +661,12 @@ class EltoritoBootCatalog:
             self.state = self.EXPECTING_SECTION_HEADER_OR_DONE
         else:
             val = bytes(bytearray([valstr[0]]))
-            if val == b'\x00':
+            # A Section Entry that is not bootable also starts with a zero
+            # byte; only take a zero as the end of the catalog if the last
+            # Section Header is not waiting for more entries, or if the whole
+            # entry is empty.
+            expecting_entry = bool(self.sections) and len(self.sections[-1].section_entries) < self.sections[-1].num_section_entries
+            if val == b'\x00' and (not expecting_entry or valstr == b'\x00' * len(valstr)):
                 # An empty entry tells us we are done parsing El Torito.  Do
                 # some sanity checks.
                 last_section_index = len(self.sections) - 1
